@@ -15,7 +15,7 @@ partial def stmtOfJson (j : Json) : DStmt :=
   match jstr (jfield j "k") with
   | "imp" => .imp (importOfJson j)
   | "bind" => .bind (jstrs (jfield j "sel")) (jstr (jfield j "arg")) (jint (jfield j "v"))
-  | "bindref" => .bindRef (jstrs (jfield j "sel")) (jstr (jfield j "arg")) (jstrs (jfield j "ref"))
+  | "bindref" => .bindRef (jstrs (jfield j "sel")) (jstr (jfield j "arg")) (jstrs (jfield j "ref")) (jnat (jfield j "scope"))
   | _ => .unit ((jarr (jfield j "body")).map stmtOfJson)
 
 def worldOfJson (j : Json) : World :=
